@@ -259,7 +259,7 @@ def build(c, transformed=True):
             t = gb.transform(x, None)
     if c.get("indirect"):
         # the transformed / flagged variable enters the graph only as a recursive input of the added root
-        y = lsl.Var(lsl.Calc(lambda v: v * 1.0, x), name="y")
+        y = lsl.Var(lsl.Calc(lambda v: jnp.asarray(v) * 1, x), name="y")
         gb.add(y)
     else:
         gb.add(x)
